@@ -110,6 +110,37 @@ def compare_ort(before: onnx.ModelProto, after: onnx.ModelProto, feeds_list) -> 
     return {"status": "equal"}
 
 
+def declared_output_mismatch(before: onnx.ModelProto, after: onnx.ModelProto, feeds) -> Optional[str]:
+    """The optimized model must still DECLARE for its outputs (and, under strict shape inference, for
+    its intermediates) what it produces: a stale annotation left by a rewrite is a changed model
+    interface (C02 'same value, shape and element type')."""
+    try:
+        outs = ort_outputs(after, feeds)
+    except Exception:
+        return None
+    for o, arr in zip(after.graph.output, outs):
+        tt = o.type.tensor_type
+        if tt.HasField("shape"):
+            dims = list(tt.shape.dim)
+            if len(dims) != arr.ndim:
+                return f"output {o.name} declared rank {len(dims)} but produces rank {arr.ndim}"
+            for k, d in enumerate(dims):
+                if d.HasField("dim_value") and int(d.dim_value) != int(arr.shape[k]):
+                    return (f"output {o.name} declared dim {k} = {d.dim_value} but produces {arr.shape[k]} "
+                            f"(shape {list(arr.shape)})")
+        if tt.elem_type and onnx.helper.tensor_dtype_to_np_dtype(tt.elem_type) != arr.dtype:
+            return f"output {o.name} declared elem_type {tt.elem_type} but produces {arr.dtype}"
+    try:
+        onnx.checker.check_model(before, full_check=True)
+    except Exception:
+        return None      # the input graph itself is not strictly consistent: nothing to conclude
+    try:
+        onnx.checker.check_model(after, full_check=True)
+    except Exception as e:  # noqa: BLE001
+        return "strict shape inference rejects the optimized model: " + str(e)[:160].replace("\n", " ")
+    return None
+
+
 def finding_key(pass_name: str, desc: dict, cmp: dict) -> dict:
     return {"pass": pass_name, "family": desc.get("family"),
             "guards": "+".join(sorted(set(g.split(":")[0] for g in desc.get("guards", [])))),
@@ -165,6 +196,10 @@ def run(chk: Check) -> None:
                    "passes_that_changed_it": [s[0] for s in snaps]}, nontrivial=changed_any or bool(desc.get("guards")))
         # end-to-end: whole pipeline vs original, always executed
         cmp = compare_ort(model, final, feeds_list)
+        if cmp["status"] == "equal":
+            stale = declared_output_mismatch(model, final, feeds_list[0])
+            if stale:
+                cmp = {"status": "after_invalid", "error": stale, "why": stale}
         if cmp["status"] in ("differ", "after_invalid"):
             meta.append({"case": ci, "pass": "<pipeline>", "desc": desc, "before": model, "after": final,
                          "feeds": feeds_list, "req": False, "precomputed": cmp})
